@@ -241,6 +241,8 @@ impl<const BITS: usize, const LIMBS: usize> Uint<BITS, LIMBS> {
     #[inline(always)]
     #[must_use]
     const fn from_limbs_unmasked(limbs: [u64; LIMBS]) -> Self {
+        // Reject `Uint` types with an incorrect `LIMBS`.
+        let _ = Self::LIMBS;
         Self { limbs }.masked()
     }
 
